@@ -304,6 +304,35 @@ def jalr_unit():
     equivalence(prog)
 
 
+# mixed situations: interactions of stalls, flushes, ecalls and memory dependencies
+MIX = {
+    "load-feeds-jalr": (lambda: [ADDI(5, 0, 4 * sym_int("slot", 4, 7)), SW(3, 5, 0), LW(6, 3, 0), JALR(R("j_rd"), 6, 0), ADDI(7, 7, 1), ADDI(8, 8, 1), ADD(9, R("a"), R("b"))], None),
+    "back-to-back-branches": (lambda: [BEQ(R("b1_rs1"), R("b1_rs2"), 8), BNE(R("b2_rs1"), R("b2_rs2"), 8), ADDI(5, 5, 1), ADDI(6, 6, 1), ADDI(7, 7, 1)], None),
+    # (destination registers limited to x0..x9 so that a7 keeps the print code)
+    "stall-then-print-ecall": (lambda: [ADD(sym_int("p_rd", 0, 9), R("p_rs1"), R("p_rs2")), ADD(sym_int("c_rd", 0, 9), R("c_rs1"), R("c_rs2")), ECALL(), ADDI(8, 8, 1)], 1),
+    "wrong-path-stall-cancelled-by-flush": (lambda: [BEQ(R("b_rs1"), R("b_rs2"), 12), ADD(5, 6, 7), ADD(8, 5, 5), ADDI(9, 9, 1), ADD(R("z_rd"), R("z_rs1"), 5)], None),
+    "store-then-load-same-address": (lambda: [SW(3, R("v"), 4), LW(R("l_rd"), 3, 4), ADD(R("c_rd"), R("c_rs1"), R("c_rs2"))], None),
+    "branch-reads-loaded-value": (lambda: [LW(5, 3, 0), BEQ(5, R("b_rs2"), 8), ADDI(6, 6, 1), ADDI(7, 7, 1)], None),
+    "jal-link-register-consumed": (lambda: [JAL(R("j_rd"), 8, 8), ADDI(5, 5, 1), ADD(R("c_rd"), R("c_rs1"), R("c_rs2")), ADDI(7, 7, 1)], None),
+}
+
+
+def mix_unit(name, tier="quick"):
+    @unit("C02/mix/" + name, tier=tier, expect_reach=("finished",))
+    def u():
+        prog, a7 = MIX[name]
+
+        def prep(st):
+            st.register_file.registers[3] = UInt32(LO + 64)
+            if a7 is not None:
+                st.register_file.registers[17] = UInt32(a7)
+        equivalence(prog, prepare=prep)
+
+
+for _n in MIX:
+    mix_unit(_n)
+
+
 # faults: older instructions have completed, younger ones have had no effect, same address reported
 @unit("C02/fault/load-between-alu", expect_reach=("fault", "finished"))
 def fault_load():
